@@ -3,6 +3,7 @@ package vbytes
 
 import (
 	"bytes"
+	"unicode"
 
 	"verif/vrt"
 )
@@ -59,3 +60,34 @@ func Clone(s []byte) []byte          { c(len(s)); return bytes.Clone(s) }
 func NewBuffer(b []byte) *Buffer     { return bytes.NewBuffer(b) }
 func NewBufferString(s string) *Buffer { return bytes.NewBufferString(s) }
 func NewReader(b []byte) *Reader     { return bytes.NewReader(b) }
+
+// the rest of the package's functions (whole-input cost), so that any use of "bytes" compiles in the instrumented build
+func ContainsFunc(b []byte, f func(rune) bool) bool   { c(len(b)); return bytes.ContainsFunc(b, f) }
+func ContainsRune(b []byte, r rune) bool              { c(len(b)); return bytes.ContainsRune(b, r) }
+func Cut(s, sep []byte) (before, after []byte, found bool) { c(len(s)); return bytes.Cut(s, sep) }
+func CutPrefix(s, prefix []byte) ([]byte, bool)       { c(len(prefix)); return bytes.CutPrefix(s, prefix) }
+func CutSuffix(s, suffix []byte) ([]byte, bool)       { c(len(suffix)); return bytes.CutSuffix(s, suffix) }
+func FieldsFunc(s []byte, f func(rune) bool) [][]byte { c(len(s)); return bytes.FieldsFunc(s, f) }
+func LastIndexAny(s []byte, chars string) int         { c(len(s) + len(chars)); return bytes.LastIndexAny(s, chars) }
+func LastIndexFunc(s []byte, f func(rune) bool) int   { c(len(s)); return bytes.LastIndexFunc(s, f) }
+func Runes(s []byte) []rune                           { c(len(s)); return bytes.Runes(s) }
+func SplitAfter(s, sep []byte) [][]byte               { c(len(s)); return bytes.SplitAfter(s, sep) }
+func SplitAfterN(s, sep []byte, n int) [][]byte       { c(len(s)); return bytes.SplitAfterN(s, sep, n) }
+func SplitN(s, sep []byte, n int) [][]byte            { c(len(s)); return bytes.SplitN(s, sep, n) }
+func Title(s []byte) []byte                           { c(len(s)); return bytes.Title(s) } //nolint
+func ToLowerSpecial(cs unicode.SpecialCase, s []byte) []byte {
+	c(len(s))
+	return bytes.ToLowerSpecial(cs, s)
+}
+func ToTitle(s []byte) []byte { c(len(s)); return bytes.ToTitle(s) }
+func ToTitleSpecial(cs unicode.SpecialCase, s []byte) []byte {
+	c(len(s))
+	return bytes.ToTitleSpecial(cs, s)
+}
+func ToUpperSpecial(cs unicode.SpecialCase, s []byte) []byte {
+	c(len(s))
+	return bytes.ToUpperSpecial(cs, s)
+}
+func ToValidUTF8(s, replacement []byte) []byte        { c(len(s)); return bytes.ToValidUTF8(s, replacement) }
+func TrimRightFunc(s []byte, f func(rune) bool) []byte { c(len(s)); return bytes.TrimRightFunc(s, f) }
+var ErrTooLarge = bytes.ErrTooLarge
